@@ -104,21 +104,18 @@ impl RateLimit {
 
 	fn request_allowed(&self) -> bool {
 		for (max_allowed, duration) in self.limits.iter() {
-			match Instant::now().checked_sub(*duration) {
-				Some(max_date) => {
-					let nb_req = self
-						.query_log
-						.iter()
-						.filter(move |x| **x > max_date)
-						.count();
-					if nb_req >= *max_allowed {
-						return false;
-					}
-				}
-				None => {
-					return false;
-				}
+			let nb_req = match Instant::now().checked_sub(*duration) {
+				Some(max_date) => self
+					.query_log
+					.iter()
+					.filter(move |x| **x > max_date)
+					.count(),
+				// The period starts before the clock's origin: every logged request is in it.
+				None => self.query_log.len(),
 			};
+			if nb_req >= *max_allowed {
+				return false;
+			}
 		}
 		true
 	}
